@@ -29,16 +29,30 @@ FIXED_TYPE_ATTR_PREFIXES = ("allow(clippy::derive_partial_eq_without_eq)", "deri
                             "query_responses(crate=", "serde(crate=")
 
 
+MACRO_DERIVES = re.compile(r"(?:(?:\w+::)*(?:serde::Serialize|serde::Deserialize|schemars::JsonSchema|cw_schema::QueryResponses)|Clone|Debug|PartialEq)")
+
+
+def own_type_attr(a):
+    """an attribute the macro itself puts on every generated message type (in whatever order and however grouped):
+    the clippy allow, derives of its standard set, and the crate = ".." helpers of serde / schemars / cw_schema"""
+    if a.startswith("allow(clippy::derive_partial_eq_without_eq)"):
+        return True
+    if a.startswith(("schemars(crate=", "query_responses(crate=", "serde(crate=")):
+        return True
+    m = re.fullmatch(r"derive\((.*)\)", a)
+    if m:
+        items = [x for x in m.group(1).split(",") if x]
+        return bool(items) and all(MACRO_DERIVES.fullmatch(x) for x in items)
+    return False
+
+
 def forwarded_type_attrs(attrs):
-    """Attributes of a generated enum/struct minus the fixed head (allow, derive, schemars, query_responses,
-    serde crate) and the fixed tail (serde rename_all)."""
+    """Attributes of a generated enum/struct minus the macro's own head (the leading run of attributes of its standard
+    set) and the fixed tail (serde rename_all)."""
     a = [strip_attr(x) for x in attrs]
     i = 0
-    # fixed head: in order allow, derive, schemars, [query_responses], serde(crate)
-    expect = ["allow(clippy::derive_partial_eq_without_eq)", "derive(", "schemars(crate=", "query_responses(crate=", "serde(crate="]
-    for e in expect:
-        if i < len(a) and a[i].startswith(e):
-            i += 1
+    while i < len(a) and own_type_attr(a[i]):
+        i += 1
     j = len(a)
     if j > i and a[j - 1].startswith('serde(rename_all="snake_case"'):
         j -= 1
@@ -169,6 +183,17 @@ def norm_expr(body):
             elif len(parts) == 1:
                 t = inner
                 changed = True
+        # eta-expanded conversions: `|e| Into::into(e)`, `|e| e.into()` are `Into::into`; `ctx.into()` is `Into::into(ctx)`
+        t2 = re.sub(r"\| (\w+) \| (?:Into :: into|From :: from) \( \1 \)", "Into :: into", t)
+        t2 = re.sub(r"\| (\w+) \| \1 \. into \( \)", "Into :: into", t2)
+        t2 = re.sub(r"(?<![\w.] )\bctx \. into \( \)", "Into :: into ( ctx )", t2)
+        # `match E { Ok(a) => Ok(a), Err(b) => Err(Into::into(b)) }` is `E.map_err(Into::into)`
+        mm = re.match(r"match (.*) \{ Ok \( (\w+) \) => Ok \( \2 \) , Err \( (\w+) \) => Err \( (?:Into :: into|From :: from) \( \3 \) \) ,? \}$", t2)
+        if mm:
+            t2 = "%s . map_err ( Into :: into )" % mm.group(1)
+        if t2 != t:
+            t = t2
+            changed = True
         m = re.match(r"(?:(?:(?:std|core) :: )?result :: )?Result :: map_err \( (.*) \)$", t)
         if m:
             args = [a for a in split_depth(m.group(1), ",") if a.strip()]
